@@ -787,6 +787,27 @@ theorem C12_raze_leaf_clones_partial (lo' : Ops) (u : Nat) (who : Who) (F : Stri
     (∀ n x, lookup s'.names n = some x → lookup s.names n = some x) :=
   raze_leaf lo' u who F s s' f hf hnd hl h
 
+/-- **Prune removes every nested clone, whatever its position in the aux list** (PARTIAL: the clones of the frame have
+no auxiliaries below them; aux list without duplicates).  The frame loop of `Framer.prune` (`prunables = [clones of
+frame.auxes]; for aux in prunables: aux.prune(); frame.auxes.remove(aux); del self.auxes[aux.tag]`): afterwards the
+frame's aux list is the old one without ANY of its clones — two, three, four adjacent ones included — the originals
+keep their order, every pruned clone is not entered and not registered, no other framer object changed and no name
+appeared.  (A loop that removes from the list it walks skips every second adjacent clone: seeded change C12-7.) -/
+theorem C12_prune_removes_all_nested_clones_partial (lo' : Ops) (u : Nat) (F : String) (s s' : St) (f : Frame)
+    (hf : s.frameOf u F = .ok f) (hnd : f.auxes.Nodup)
+    (hl : ∀ a ∈ f.auxes.filter (isCloneAux s), a ≠ u ∧ LeafObj s a)
+    (h : pruneFrame (nextOps lo') u F s = .ok s') :
+    (∃ f', s'.frameOf u F = .ok f' ∧ f'.auxes = f.auxes.filter (fun x => !isCloneAux s x) ∧
+        { f' with auxes := f.auxes } = f) ∧
+    (∀ fn, fn ≠ F → s'.frameOf u fn = s.frameOf u fn) ∧
+    (∀ v, v ≠ u → v ∉ f.auxes.filter (isCloneAux s) → s'.get? v = s.get? v) ∧
+    (∀ a ∈ f.auxes.filter (isCloneAux s), ∃ oa oa', s.get? a = some oa ∧ s'.get? a = some oa' ∧
+        oa'.ctl.active = none ∧ lookup s'.names oa.name ≠ some a) ∧
+    (∀ n x, lookup s'.names n = some x → lookup s.names n = some x) :=
+  pruneFrame_leaf lo' u F s s' f hf hnd hl h
+
+example : ([3, 4, 5, 6] : List Nat).filter (fun x => !([3, 4, 5, 6].filter (fun a => a != 5)).contains x) = [5] := by decide
+
 /-- pruning such a clone: exit if entered (through the stand-alone `lexitAll`), then unregister in the clone's own
 house (`assignRegistries`, fix D47a); nothing else -/
 theorem C12_prune_leaf_clone_partial (lo : Ops) (ι : String → String) (house name : String) (P : List Frame) (first : String)
